@@ -188,6 +188,16 @@ def o142(ctx):
     val = st.args[2]
     vt = to_term(val)
     ctx.count(1, {"stamped value": tm.show(vt)[:200]})
+    # the volume the stamps go into holds the colouring values as they are
+    tgt_ = st.args[0]
+    while getattr(tgt_, "alloc_dtype", None) is None and getattr(tgt_, "before", None) is not None:
+        tgt_ = tgt_.before  # the value the variable had when the loop was entered (element stores do not change the type)
+    nd_ = getattr(tgt_, "alloc_dtype", None)
+    ctx.count(1, {"element type of a volume allocated here": nd_ or "float64 (library default)"})
+    if nd_ is not None and (str(nd_).startswith(("int", "uint")) or nd_ in ("short", "intc", "float16")):
+        ctx.finding(q, st.node, f"the volume the particles are stamped into is allocated as {nd_}: the value of the colouring field is converted on the "
+                    "way in (a score of 0.37 becomes 0, an id above the type's range wraps around), so the placed object no longer carries the "
+                    "field's value", st.node, m)
     # the thresholded template window is the sub-term compared with 1 / multiplied: find the template-window atom
     tw = None
     for n in tm.walk(vt):
@@ -359,4 +369,4 @@ def _obligations():
 
 
 def obligations():
-    return _obligations() + [constructors_obligation(['cryomotl.Motl', 'cryomotl.EmMotl']), labels_obligation("C14"), selectors_obligation("C14"), effects_obligation("C14"), plumbing_obligation("C14"), overrides_obligation("C14"), options_obligation("C14")]
+    return _obligations() + [constructors_obligation(['cryomotl.Motl', 'cryomotl.EmMotl']), labels_obligation("C14"), selectors_obligation("C14"), effects_obligation("C14"), plumbing_obligation("C14"), overrides_obligation("C14"), options_obligation("C14"), handlers_obligation("C14")]
